@@ -227,8 +227,38 @@ def render_form(form, L, start, size, orphan, overlap):
     return [int(x) for x in nums.split(',')]
 
 
+class UndefinedStart(Exception):
+    pass
+
+
+FULLWIDTH = str.maketrans('0123456789', '\uff10\uff11\uff12\uff13\uff14'
+                          '\uff15\uff16\uff17\uff18\uff19')
+SPELLINGS = [int, str, lambda n: ' %d' % n, lambda n: '%d\n' % n,
+             lambda n: '\t%d ' % n, lambda n: ('+%d' % n) if n >= 0 else
+             ' %d' % n, lambda n: '%d\r\n' % n, lambda n: '\xa0%d\x85' % n,
+             lambda n: str(n).translate(FULLWIDTH),
+             lambda n: '\x0c%d\x0b' % n, lambda n: '\u3000%d' % n]
+
+
 def render_var(L, start, end, size, orphan, overlap, as_str=False):
-    c = str if as_str else int
+    """as_str: False = integers; True / k = one of the spellings of a
+    number as text that int() understands (padded, signed, other digits)"""
+    c = SPELLINGS[int(as_str or 0) % len(SPELLINGS)]
+    if start == 1 and as_str is not None:
+        # "start=name" with the name undefined (the first page of a listing
+        # driven by a request variable) is start 1; so is a value that is
+        # no number
+        want = render_var(L, 1, end, size, orphan, overlap, None)
+        for bad in (None, '', 'abc'):
+            kw = dict(seq=list(range(1, L + 1)), pend=c(end), psize=c(size),
+                      porphan=c(orphan), poverlap=c(overlap))
+            if bad is not None:
+                kw['pstart'] = bad
+            got = _var_template()(**kw)
+            if got != want:
+                raise UndefinedStart(repr(bad), got, want)
+    if as_str is None:
+        c = int
     return _var_template()(seq=list(range(1, L + 1)), pstart=c(start),
                            pend=c(end), psize=c(size), porphan=c(orphan),
                            poverlap=c(overlap))
@@ -362,7 +392,8 @@ def run_block(case):
                                          reverse=True)
                     else:
                         out = render_var(L, start, end, size, orphan, overlap,
-                                         as_str=(start + end) % 2 == 0)
+                                         as_str=(start + 3 * end + 5 * size +
+                                                 7 * orphan + L) % 11)
                     win = judge_rows(res, sub, parse_rows(out), L, start, end,
                                      size, orphan, overlap, how)
             except CaseTimeout:
@@ -401,7 +432,8 @@ def run_single(case):
                 out = render_lit(L, start, end, size, orphan, overlap)
             else:
                 out = render_var(L, start, end, size, orphan, overlap,
-                                 as_str=(start + end) % 2 == 0)
+                                 as_str=(start + 3 * end + 5 * size +
+                                         7 * orphan + L) % 11)
             judge_rows(res, case, parse_rows(out), L, start, end, size,
                        orphan, overlap, case['mode'])
     except CaseTimeout:
